@@ -1,16 +1,640 @@
-//! Suite C02 (stub — replaced when the property's harness is built).
-#![allow(dead_code, unused_imports)]
+//! Suite C02: the REAL parsers / MIC validation / in-place decryption of `lorawan::parser`
+//! (DefaultCrypto and DefaultNetworkCrypto), against the Lean model and specification.
+#![allow(dead_code)]
+use crate::c01::{arr, cflist, data_op, pick_fcnt, DataGen, DataOp};
 use crate::util::*;
+use lorawan::creator::{JoinAccept, JoinRequest};
+use lorawan::default_crypto::{DefaultCrypto, DefaultNetworkCrypto};
+use lorawan::keys::{Crypto, AES128};
+use lorawan::parser::*;
+use lorawan::types::DLSettings;
+use std::panic::AssertUnwindSafe;
 
-pub fn eval(_op: &str) -> String {
-    "bad-op".into()
+fn b01(b: bool) -> &'static str {
+    if b {
+        "1"
+    } else {
+        "0"
+    }
+}
+fn ft_num(t: DataFrameType) -> u8 {
+    match t {
+        DataFrameType::UnconfirmedUp => 0,
+        DataFrameType::UnconfirmedDown => 1,
+        DataFrameType::ConfirmedUp => 2,
+        DataFrameType::ConfirmedDown => 3,
+    }
+}
+
+/// every accessor of a data-frame view (the macro-generated ones, `Fhdr`, `FCtrl`); `$frm` = the FRMPayload bytes
+macro_rules! view_string {
+    ($p:expr, $frm:expr) => {{
+        let p = &$p;
+        let fhdr = p.fhdr();
+        let fc = fhdr.fctrl();
+        format!(
+            "D ft={} up={} cf={} addr={} fctrl={:02x} adr={} req={} ack={} pend={} flen={} fcnt={} fopts={} port={} frm={} mic={}",
+            ft_num(p.frame_type()),
+            b01(p.is_uplink()),
+            b01(p.is_confirmed()),
+            hex(fhdr.dev_addr().as_wire_bytes()),
+            fc.raw_value(),
+            b01(fc.adr()),
+            b01(fc.adr_ack_req()),
+            b01(fc.ack()),
+            b01(fc.f_pending()),
+            fc.f_opts_len(),
+            fhdr.fcnt(),
+            hex(fhdr.f_opts()),
+            p.f_port().map(|x| x.to_string()).unwrap_or("-".into()),
+            hex($frm),
+            hex(&p.mic().0)
+        )
+    }};
+}
+
+/// the FRMPayload range of an encrypted view, from its public accessors and `as_bytes`
+fn enc_frm<'a>(p: &EncryptedDataPayload<'a>) -> &'a [u8] {
+    let b = p.as_bytes();
+    let start = 8 + p.fhdr().f_opts().len() + if p.f_port().is_some() { 1 } else { 0 };
+    &b[start..b.len() - 4]
+}
+
+fn err(e: Error) -> String {
+    format!("ERR:{:?}", e)
+}
+
+fn jr_string(j: &JoinRequestPayload<'_>) -> String {
+    format!(
+        "JR je={} de={} dn={} mic={}",
+        hex(j.join_eui().as_wire_bytes()),
+        hex(j.dev_eui().as_wire_bytes()),
+        hex(j.dev_nonce().as_wire_bytes()),
+        hex(&j.mic().0)
+    )
+}
+
+fn g(f: impl FnOnce() -> String) -> String {
+    guarded(AssertUnwindSafe(f)).unwrap_or("PANIC".into())
+}
+
+fn okey(s: &str) -> Option<Option<[u8; 16]>> {
+    if s == "-" {
+        Some(None)
+    } else {
+        arr::<16>(s).map(Some)
+    }
+}
+
+fn dec_string(d: &DecryptedDataPayload<'_>) -> String {
+    let (k, frm): (&str, &[u8]) = match d.frm_payload() {
+        FrmPayload::None => ("N", &[]),
+        FrmPayload::MacCommands(b) => ("M", b),
+        FrmPayload::Data(b) => ("A", b),
+    };
+    // the raw FRMPayload range of the decrypted view for the `frm=` field
+    let b = d.as_bytes();
+    let start = 8 + d.fhdr().f_opts().len() + if d.f_port().is_some() { 1 } else { 0 };
+    let raw = &b[start..b.len() - 4];
+    format!("OK {} {} {}", k, hex(frm), view_string!(d, raw))
+}
+
+fn decrypt_with<C: Crypto>(buf: &mut Vec<u8>, nwk: Option<[u8; 16]>, app: Option<[u8; 16]>, fcnt: u32, mk: impl Fn(&AES128) -> C) -> String {
+    let nwk = nwk.map(|k| mk(&AES128(k)));
+    let app = app.map(|k| mk(&AES128(k)));
+    match DecryptedDataPayload::decrypt_in_place(&mut buf[..], nwk.as_ref(), app.as_ref(), fcnt) {
+        Ok(d) => dec_string(&d),
+        Err(e) => err(e),
+    }
+}
+
+fn checkdec_with<C: Crypto>(buf: &mut Vec<u8>, nwk: [u8; 16], app: Option<[u8; 16]>, fcnt: u32, mk: impl Fn(&AES128) -> C) -> String {
+    let nwk = mk(&AES128(nwk));
+    let app = app.map(|k| mk(&AES128(k)));
+    match DecryptedDataPayload::check_mic_and_decrypt_in_place(&mut buf[..], &nwk, app.as_ref(), fcnt) {
+        Ok(d) => dec_string(&d),
+        Err(e) => err(e),
+    }
+}
+
+/// seeded choice of the crypto variant, derived from the op itself so that `eval` is a function of the op line
+fn variant_of(op: &str) -> bool {
+    let mut h = Fnv::new();
+    for b in op.bytes() {
+        h.byte(b);
+    }
+    h.0 & 1 == 0
+}
+
+fn cf_string(c: Option<CfList>) -> String {
+    match c {
+        None => "-".into(),
+        Some(CfList::DynamicChannel(f)) => format!("D{}", f.iter().map(|x| hex(x.as_wire_bytes())).collect::<String>()),
+        Some(CfList::FixedChannel(m)) => format!("F{}", hex(m.as_ref())),
+    }
+}
+
+pub fn eval(op: &str) -> String {
+    let w: Vec<&str> = op.split_whitespace().collect();
+    let dflt = variant_of(op);
+    match w.as_slice() {
+        ["C02", "parse", h] => {
+            let b = unhex(h);
+            g(|| match parse(&b) {
+                Ok(PhyPayload::JoinRequest(j)) => jr_string(&j),
+                Ok(PhyPayload::JoinAccept(a)) => format!("JA len={}", a.as_bytes().len()),
+                Ok(PhyPayload::Data(p)) => view_string!(p, enc_frm(&p)),
+                Err(e) => err(e),
+            })
+        }
+        ["C02", "parsedata", h] => {
+            let b = unhex(h);
+            g(|| match EncryptedDataPayload::parse(&b) {
+                Ok(p) => view_string!(p, enc_frm(&p)),
+                Err(e) => err(e),
+            })
+        }
+        ["C02", "parsejr", h] => {
+            let b = unhex(h);
+            g(|| match JoinRequestPayload::parse(&b) {
+                Ok(j) => jr_string(&j),
+                Err(e) => err(e),
+            })
+        }
+        ["C02", "parseja", h] => {
+            let b = unhex(h);
+            g(|| match EncryptedJoinAcceptPayload::parse(&b) {
+                Ok(a) => format!("JA len={}", a.as_bytes().len()),
+                Err(e) => err(e),
+            })
+        }
+        ["C02", "mic", h, k, fcnt] => {
+            let (b, Some(k), Ok(fcnt)) = (unhex(h), arr::<16>(k), fcnt.parse::<u32>()) else { return "bad-op".into() };
+            g(|| match EncryptedDataPayload::parse(&b) {
+                Ok(p) => {
+                    let a = p.validate_mic(&DefaultCrypto::new(&AES128(k)), fcnt);
+                    let n = p.validate_mic(&DefaultNetworkCrypto::new(&AES128(k)), fcnt);
+                    if a != n {
+                        "VARIANTS-DIFFER".into()
+                    } else {
+                        b01(a).into()
+                    }
+                }
+                Err(e) => err(e),
+            })
+        }
+        ["C02", "decrypt", h, nwk, app, fcnt] => {
+            let (mut b, Some(nwk), Some(app), Ok(fcnt)) = (unhex(h), okey(nwk), okey(app), fcnt.parse::<u32>()) else {
+                return "bad-op".into();
+            };
+            let r = g(|| if dflt { decrypt_with(&mut b, nwk, app, fcnt, DefaultCrypto::new) } else { decrypt_with(&mut b, nwk, app, fcnt, DefaultNetworkCrypto::new) });
+            format!("{};{}", r, hex(&b))
+        }
+        ["C02", "checkdec", h, nwk, app, fcnt] => {
+            let (mut b, Some(nwk), Some(app), Ok(fcnt)) = (unhex(h), arr::<16>(nwk), okey(app), fcnt.parse::<u32>()) else {
+                return "bad-op".into();
+            };
+            let r = g(|| if dflt { checkdec_with(&mut b, nwk, app, fcnt, DefaultCrypto::new) } else { checkdec_with(&mut b, nwk, app, fcnt, DefaultNetworkCrypto::new) });
+            format!("{};{}", r, hex(&b))
+        }
+        ["C02", "dd", h, nwk, app, fcnt] => {
+            let (mut b, Some(nwk), Some(app), Ok(fcnt)) = (unhex(h), okey(nwk), okey(app), fcnt.parse::<u32>()) else {
+                return "bad-op".into();
+            };
+            g(|| {
+                let first = decrypt_with(&mut b, nwk, app, fcnt, DefaultCrypto::new);
+                if first.starts_with("ERR:") {
+                    return first;
+                }
+                let second = decrypt_with(&mut b, nwk, app, fcnt, DefaultNetworkCrypto::new);
+                if second.starts_with("ERR:") {
+                    return format!("SECOND-{}", second);
+                }
+                hex(&b)
+            })
+        }
+        ["C02", "jrmic", h, k] => {
+            let (b, Some(k)) = (unhex(h), arr::<16>(k)) else { return "bad-op".into() };
+            g(|| match JoinRequestPayload::parse(&b) {
+                Ok(j) => {
+                    let a = j.validate_mic(&DefaultCrypto::new(&AES128(k)));
+                    let n = j.validate_mic(&DefaultNetworkCrypto::new(&AES128(k)));
+                    if a != n {
+                        "VARIANTS-DIFFER".into()
+                    } else {
+                        b01(a).into()
+                    }
+                }
+                Err(e) => err(e),
+            })
+        }
+        ["C02", "ja", h, k, dn] => {
+            let (b, Some(k), Some(dn)) = (unhex(h), arr::<16>(k), arr::<2>(dn)) else { return "bad-op".into() };
+            let mut buf = b.clone();
+            let mut buf2 = b.clone();
+            let r = g(|| {
+                let crypto = DefaultCrypto::new(&AES128(k));
+                let chk = match DecryptedJoinAcceptPayload::check_mic_and_decrypt_in_place(&mut buf2[..], &DefaultNetworkCrypto::new(&AES128(k))) {
+                    Ok(_) => "OK".to_string(),
+                    Err(e) => err(e),
+                };
+                match DecryptedJoinAcceptPayload::decrypt_in_place(&mut buf[..], &crypto) {
+                    Ok(d) => {
+                        let dnv = DevNonce::from_wire_bytes(dn);
+                        format!(
+                            "OK mic={} chk={} chkbuf={} jn={} ni={} addr={} dl={:02x} rx={} cfl={} micb={} nwk={} app={}",
+                            b01(d.validate_mic(&crypto)),
+                            chk,
+                            hex(&buf2),
+                            hex(d.join_nonce().as_wire_bytes()),
+                            hex(d.net_id().as_wire_bytes()),
+                            hex(d.dev_addr().as_wire_bytes()),
+                            d.dl_settings().raw_value(),
+                            d.rx_delay(),
+                            cf_string(d.c_f_list()),
+                            hex(&d.mic().0),
+                            hex(d.derive_nwkskey(dnv, &crypto).as_ref()),
+                            hex(d.derive_appskey(dnv, &crypto).as_ref())
+                        )
+                    }
+                    Err(e) => err(e),
+                }
+            });
+            format!("{};{}", r, hex(&buf))
+        }
+        ["C02", "rt", rest @ ..] if rest.len() == 9 => {
+            let Some(d) = DataOp::parse(rest) else { return "bad-op".into() };
+            if d.port.is_none() && !d.pld.is_empty() {
+                return "bad-op".into();
+            }
+            let mut big = vec![0u8; 300];
+            let built = guarded(AssertUnwindSafe(|| if dflt { d.build(&mut big, DefaultCrypto::new) } else { d.build(&mut big, DefaultNetworkCrypto::new) }));
+            match built {
+                None => "PANIC".into(),
+                Some(Err(e)) => format!("RT {}", err(e)),
+                Some(Ok(frame)) => {
+                    let mut b = frame.clone();
+                    let r = g(|| if dflt { checkdec_with(&mut b, d.nwk, d.app, d.fcnt, DefaultNetworkCrypto::new) } else { checkdec_with(&mut b, d.nwk, d.app, d.fcnt, DefaultCrypto::new) });
+                    format!("RT {};{}", r, hex(&b))
+                }
+            }
+        }
+        _ => "bad-op".into(),
+    }
 }
 
 pub fn expand(_op: &str) -> Vec<String> {
     vec![]
 }
 
-pub fn run(_tier: &str, _seed: u64, dir: &str) {
-    let sink = Sink::new(dir);
-    sink.finish(dir, "stub", false, serde_json::json!({}));
+fn opt_hex(k: &Option<Vec<u8>>) -> String {
+    match k {
+        Some(k) => hex(k),
+        None => "-".into(),
+    }
+}
+
+struct Built {
+    frame: Vec<u8>,
+    nwk: Vec<u8>,
+    app: Vec<u8>,
+    fcnt: u32,
+}
+
+/// a valid data frame from the C01 generator space, built by the real builder
+fn valid_frame(rng: &mut Rng) -> Option<Built> {
+    let kind = rng.below(3) as u8;
+    let g = DataGen {
+        ft: rng.below(4) as u8,
+        flags: rng.below(16) as u8,
+        fopts_len: if kind == 1 { 0 } else if rng.chance(1, 2) { 0 } else { rng.below(16) as usize },
+        kind,
+        pld_len: if rng.chance(1, 6) { 0 } else if rng.chance(1, 2) { rng.below(40) as usize } else { rng.below(243) as usize },
+        fcnt: pick_fcnt(rng),
+        with_app: true,
+        bufsel: 0,
+    };
+    let op = data_op(rng, &g);
+    let w: Vec<&str> = op.split_whitespace().collect();
+    let d = DataOp::parse(&w[2..])?;
+    let mut buf = vec![0u8; 300];
+    let frame = d.build(&mut buf, DefaultCrypto::new).ok()?;
+    Some(Built { frame, nwk: d.nwk.to_vec(), app: d.app.unwrap().to_vec(), fcnt: d.fcnt })
+}
+
+/// one structured mutation; returns its name
+fn mutate(rng: &mut Rng, f: &mut Vec<u8>) -> &'static str {
+    let n = f.len();
+    match rng.below(15) {
+        0 | 12 | 13 | 14 => "valid",
+        1 => {
+            f[0] ^= 1 << rng.below(2); // major
+            "mhdr-major"
+        }
+        2 => {
+            f[0] ^= 1 << (2 + rng.below(3)); // RFU bits
+            "mhdr-rfu"
+        }
+        3 => {
+            f[0] = (f[0] & 0x1f) | ((rng.below(8) as u8) << 5); // message type
+            "mhdr-mtype"
+        }
+        4 => {
+            f[5] ^= 1 << (4 + rng.below(4)); // FCtrl flag bits
+            "fctrl-flag"
+        }
+        5 => {
+            f[5] = (f[5] & 0xf0) | rng.below(16) as u8; // FOptsLen
+            "fctrl-foptslen"
+        }
+        6 => {
+            let keep = rng.below(n as u64 + 1) as usize;
+            f.truncate(keep);
+            "truncated"
+        }
+        7 => {
+            let extra = 1 + rng.below(8) as usize;
+            let mut e = rng.bytes(extra);
+            f.append(&mut e);
+            "extended"
+        }
+        8 => {
+            let i = n - 1 - rng.below(4) as usize;
+            f[i] ^= 1 << rng.below(8);
+            "mic-bit"
+        }
+        9 => {
+            if n > 13 {
+                let i = 8 + rng.below((n - 12) as u64) as usize;
+                f[i] ^= 1 << rng.below(8);
+            }
+            "body-bit"
+        }
+        10 => {
+            let i = 1 + rng.below(7) as usize;
+            f[i] ^= 1 << rng.below(8); // DevAddr / FCtrl / FCnt
+            "fhdr-bit"
+        }
+        _ => {
+            // port byte (when present) to 0 / non-zero: changes the key selection
+            let fl = (f[5] & 0x0f) as usize;
+            if n > 8 + fl + 4 {
+                f[8 + fl] = if f[8 + fl] == 0 { 1 + rng.below(255) as u8 } else { 0 };
+            }
+            "port-zero-swap"
+        }
+    }
+}
+
+fn emit_data_ops(rng: &mut Rng, sink: &mut Sink, class: &str, f: &[u8], nwk: &[u8], app: &[u8], fcnt: u32) {
+    let h = hex(f);
+    let wrong = rng.bytes(16);
+    // counters whose low half does / does not match the wire counter
+    let counters = [fcnt, fcnt ^ 0x10000, fcnt.wrapping_add(0x10000), fcnt ^ 1, rng.next() as u32];
+    let mut ops: Vec<String> = vec![format!("C02 parse {}", h), format!("C02 parsedata {}", h)];
+    let c1 = *rng.pick(&counters);
+    ops.push(format!("C02 mic {} {} {}", h, hex(nwk), fcnt));
+    ops.push(format!("C02 mic {} {} {}", h, hex(nwk), c1));
+    if rng.chance(1, 4) {
+        ops.push(format!("C02 mic {} {} {}", h, hex(&wrong), fcnt));
+    }
+    let keysel = rng.below(6);
+    let (nk, ak): (Option<Vec<u8>>, Option<Vec<u8>>) = match keysel {
+        0 => (None, Some(app.to_vec())),
+        1 => (Some(nwk.to_vec()), None),
+        2 => (None, None),
+        _ => (Some(nwk.to_vec()), Some(app.to_vec())),
+    };
+    let c2 = *rng.pick(&counters);
+    ops.push(format!("C02 decrypt {} {} {} {}", h, opt_hex(&nk), opt_hex(&ak), c2));
+    ops.push(format!("C02 dd {} {} {} {}", h, opt_hex(&nk), opt_hex(&ak), c2));
+    ops.push(format!("C02 checkdec {} {} {} {}", h, hex(nwk), opt_hex(&ak), fcnt));
+    ops.push(format!("C02 checkdec {} {} {} {}", h, hex(nwk), hex(app), c1));
+    if rng.chance(1, 4) {
+        ops.push(format!("C02 checkdec {} {} {} {}", h, hex(&wrong), hex(app), fcnt));
+    }
+    for op in ops {
+        let a = eval(&op);
+        let kind = op.split_whitespace().nth(1).unwrap().to_string();
+        let res = if a.starts_with("ERR:") {
+            a.split(';').next().unwrap().to_string()
+        } else if a.starts_with("OK") || a.starts_with("D ") || a == "1" || a.starts_with("JR") || a.starts_with("JA") {
+            "accepted".to_string()
+        } else if a == "0" {
+            "mic-mismatch".to_string()
+        } else if a == "PANIC" {
+            a.clone()
+        } else {
+            "value".to_string()
+        };
+        sink.case(&op, &a, &format!("{}/{}/{}", class, kind, res), true);
+    }
+}
+
+pub fn run(tier: &str, seed: u64, dir: &str) {
+    let mut rng = Rng::new(seed);
+    let mut sink = Sink::new(dir);
+    let thorough = tier == "thorough";
+
+    // 0. the published vectors
+    for op in [
+        "C02 parse 400403020180010001a694642615d6c3b582",
+        "C02 mic 400403020180010001a694642615d6c3b582 02020202020202020202020202020202 1",
+        "C02 checkdec 400403020180010001a694642615d6c3b582 02020202020202020202020202020202 01010101010101010101010101010101 1",
+        "C02 checkdec a00403020180ff2a2a0af1a36a05d0125f885d881d49e1 02020202020202020202020202020202 01010101010101010101010101010101 76543",
+        "C02 decrypt 40040302010000000069369eee6aa508 01010101010101010101010101010101 - 0",
+        "C02 parse 00040302010403020105040302050403022d106a990e12",
+        "C02 jrmic 00040302010403020105040302050403022d106a990e12 01010101010101010101010101010101",
+        "C02 ja 20493eeb51fba2116f810edb3742975142 00112233445566778899aabbccddeeff ccdd",
+        "C02 ja 20e45673b63cb4b9cecb2aa83f0333e615d2ac89eea1659837c3aa6df9689889cf 01010101010101010101010101010101 ccdd",
+        "C02 rt 2 efbeadde 10 262151 02 7 7061796c6f6164 03030303030303030303030303030303 04040404040404040404040404040404",
+    ] {
+        sink.case(op, &eval(op), "vector", true);
+    }
+
+    // 1. 80 %: valid frames with structured mutations
+    let n_valid = if thorough { 40_000 } else { 1_600 };
+    for _ in 0..n_valid {
+        let Some(b) = valid_frame(&mut rng) else { continue };
+        let mut f = b.frame.clone();
+        let m = mutate(&mut rng, &mut f);
+        let mut class = format!("mut-{}", m);
+        if rng.chance(1, 10) && f.len() >= 13 {
+            // a second, independent mutation
+            let m2 = mutate(&mut rng, &mut f);
+            class = format!("mut-{}+{}", m, m2);
+        }
+        emit_data_ops(&mut rng, &mut sink, &class, &f, &b.nwk, &b.app, b.fcnt);
+    }
+    // 2. 10 %: random byte strings of every length 0..=255
+    let n_rand = if thorough { 5_000 } else { 256 };
+    for i in 0..n_rand {
+        let len = if i < 256 { i } else { rng.below(256) as usize };
+        let mut f = rng.bytes(len);
+        if len > 0 && rng.chance(1, 2) {
+            f[0] &= 0xfc; // a valid major version half of the time, so that deeper checks are reached
+        }
+        let (nwk, app) = (rng.bytes(16), rng.bytes(16));
+        let fcnt = pick_fcnt(&mut rng);
+        emit_data_ops(&mut rng, &mut sink, "random", &f, &nwk, &app, fcnt);
+        for op in [format!("C02 parsejr {}", hex(&f)), format!("C02 parseja {}", hex(&f))] {
+            let a = eval(&op);
+            sink.case(&op, &a, &format!("random/{}", if a.starts_with("ERR") { a.as_str() } else { "accepted" }), true);
+        }
+    }
+    // 3. 10 %: every length 0..=12 (and the join lengths) x every message type x FOptsLen classes
+    let reps = if thorough { 8 } else { 1 };
+    for _ in 0..reps {
+        for len in (0..=13usize).chain([16, 17, 18, 22, 23, 24, 32, 33, 34]) {
+            for mtype in 0..8u8 {
+                for fl in [0u8, 1, 2, 15] {
+                    let mut f = rng.bytes(len);
+                    if len > 0 {
+                        f[0] = (mtype << 5) | if rng.chance(1, 8) { rng.below(4) as u8 } else { 0 } | ((rng.below(8) as u8) << 2);
+                    }
+                    if len > 5 {
+                        f[5] = (f[5] & 0xf0) | fl;
+                    }
+                    let (nwk, app) = (rng.bytes(16), rng.bytes(16));
+                    let fcnt = pick_fcnt(&mut rng);
+                    emit_data_ops(&mut rng, &mut sink, "short", &f, &nwk, &app, fcnt);
+                    for op in [format!("C02 parsejr {}", hex(&f)), format!("C02 parseja {}", hex(&f)), format!("C02 jrmic {} {}", hex(&f), hex(&nwk)), format!("C02 ja {} {} {}", hex(&f), hex(&nwk), hex(&rng.bytes(2)))] {
+                        let a = eval(&op);
+                        let r = a.split(';').next().unwrap();
+                        sink.case(&op, &a, &format!("short-join/{}", if r.starts_with("ERR") { r } else { "accepted" }), true);
+                    }
+                }
+            }
+        }
+    }
+    // 4. JoinRequest: built, then mutated; right and wrong key
+    let n_jr = if thorough { 10_000 } else { 500 };
+    for _ in 0..n_jr {
+        let key = rng.bytes(16);
+        let jr = JoinRequest {
+            join_eui: JoinEui::from_wire_bytes(rng.bytes(8).try_into().unwrap()),
+            dev_eui: DevEui::from_wire_bytes(rng.bytes(8).try_into().unwrap()),
+            dev_nonce: DevNonce::from_wire_bytes(rng.bytes(2).try_into().unwrap()),
+        };
+        let mut buf = [0u8; 23];
+        let mut f = jr.build_into(&mut buf, &DefaultCrypto::new(&AES128(key.clone().try_into().unwrap()))).unwrap().to_vec();
+        let m = match rng.below(5) {
+            0 => {
+                let i = rng.below(23) as usize;
+                f[i] ^= 1 << rng.below(8);
+                "bit"
+            }
+            1 => {
+                f.truncate(rng.below(24) as usize);
+                "truncated"
+            }
+            2 => {
+                f.push(rng.next() as u8);
+                "extended"
+            }
+            _ => "valid",
+        };
+        let k2 = if rng.chance(1, 4) { rng.bytes(16) } else { key.clone() };
+        for op in [format!("C02 parse {}", hex(&f)), format!("C02 parsejr {}", hex(&f)), format!("C02 jrmic {} {}", hex(&f), hex(&k2))] {
+            let a = eval(&op);
+            let r = if a.starts_with("ERR") { a.as_str() } else if a == "0" { "mic-mismatch" } else { "accepted" };
+            sink.case(&op, &a, &format!("joinrequest-{}/{}", m, r), true);
+        }
+    }
+    // 5. JoinAccept: built with none / type-0 / type-1 CFList, or raw (random CFListType), then mutated
+    let n_ja = if thorough { 20_000 } else { 1_200 };
+    for i in 0..n_ja {
+        let key: [u8; 16] = rng.bytes(16).try_into().unwrap();
+        let cf = match i % 4 {
+            0 => "-".to_string(),
+            1 => format!("D{}", hex(&rng.bytes(15))),
+            2 => format!("F{}", hex(&rng.bytes(9))),
+            _ => "raw".to_string(),
+        };
+        let mut f: Vec<u8> = if cf == "raw" {
+            let n = if rng.chance(1, 2) { 17 } else { 33 };
+            let mut v = rng.bytes(n);
+            v[0] = 0x20;
+            v
+        } else {
+            let ja = JoinAccept {
+                join_nonce: JoinNonce::from_wire_bytes(rng.bytes(3).try_into().unwrap()),
+                net_id: NetId::from_wire_bytes(rng.bytes(3).try_into().unwrap()),
+                dev_addr: DevAddr::from_wire_bytes(rng.bytes(4).try_into().unwrap()),
+                dl_settings: DLSettings::new(rng.next() as u8),
+                rx_delay: rng.next() as u8,
+                c_f_list: cflist(&cf).unwrap(),
+            };
+            let mut buf = [0u8; 33];
+            ja.build_into(&mut buf, &DefaultNetworkCrypto::new(&AES128(key))).unwrap().to_vec()
+        };
+        let m = match rng.below(6) {
+            0 => {
+                let i = rng.below(f.len() as u64) as usize;
+                f[i] ^= 1 << rng.below(8);
+                "bit"
+            }
+            1 => {
+                f.truncate(rng.below(f.len() as u64 + 1) as usize);
+                "truncated"
+            }
+            2 => {
+                f.push(rng.next() as u8);
+                "extended"
+            }
+            _ => "valid",
+        };
+        let k2 = if rng.chance(1, 5) { rng.bytes(16) } else { key.to_vec() };
+        for op in [format!("C02 parse {}", hex(&f)), format!("C02 parseja {}", hex(&f)), format!("C02 ja {} {} {}", hex(&f), hex(&k2), hex(&rng.bytes(2)))] {
+            let a = eval(&op);
+            let r0 = a.split(';').next().unwrap();
+            let r = if r0.starts_with("ERR") {
+                r0.to_string()
+            } else if r0.contains("mic=0") {
+                "mic-mismatch".to_string()
+            } else {
+                "accepted".to_string()
+            };
+            sink.case(&op, &a, &format!("joinaccept-{}-{}/{}", &cf[..1], m, r), true);
+        }
+    }
+    // 6. round trip: every built frame of C01's space decodes (real builder, real parser) to what it was built from
+    let per_len = if thorough { 40 } else { 2 };
+    for len in 0..=242usize {
+        for r in 0..per_len {
+            let kind = if len == 0 && r == 0 { 0 } else if r % 3 == 1 { 1 } else { 2 };
+            let gd = DataGen {
+                ft: rng.below(4) as u8,
+                flags: rng.below(16) as u8,
+                fopts_len: if kind == 1 { 0 } else if rng.chance(1, 2) { 0 } else { rng.below(16) as usize },
+                kind,
+                pld_len: len,
+                fcnt: pick_fcnt(&mut rng),
+                with_app: true,
+                bufsel: 0,
+            };
+            let op = data_op(&mut rng, &gd);
+            let w: Vec<&str> = op.split_whitespace().collect();
+            let rt = format!("C02 rt {}", w[2..11].join(" "));
+            let a = eval(&rt);
+            sink.case(&rt, &a, &format!("roundtrip/{}", ["none", "mac", "app"][kind as usize]), true);
+        }
+    }
+    for ft in 0..4u8 {
+        for flags in 0..16u8 {
+            let gd = DataGen { ft, flags, fopts_len: rng.below(16) as usize, kind: 2, pld_len: rng.below(30) as usize, fcnt: pick_fcnt(&mut rng), with_app: true, bufsel: 0 };
+            let op = data_op(&mut rng, &gd);
+            let w: Vec<&str> = op.split_whitespace().collect();
+            let rt = format!("C02 rt {}", w[2..11].join(" "));
+            let a = eval(&rt);
+            sink.case(&rt, &a, "roundtrip/flags-grid", true);
+        }
+    }
+
+    sink.finish(
+        dir,
+        "real parse / EncryptedDataPayload::parse + every accessor / validate_mic / decrypt_in_place / check_mic_and_decrypt_in_place (result AND buffer afterwards) / double decrypt / JoinRequest + JoinAccept parsing, MIC, accessors, CFList, derived session keys, vs Lean model vs Lean specification. Byte strings: ~80 % valid frames from C01's generator with one structured mutation (MHDR major/RFU/type, FCtrl flags, FOptsLen, truncation, extension, MIC bit, body bit, FHDR bit, port 0 swap), ~10 % random strings of every length 0..=255, ~10 % every length 0..=13 and the join lengths x 8 message types x FOptsLen classes; keys present / missing / wrong; counters whose low half does / does not match the wire counter; round trips over every payload length 0..=242 and the 4 x 16 type/flag grid. Non-trivial = every case (a concrete view, verdict, plaintext or buffer is compared); distinct = distinct op lines.",
+        false,
+        serde_json::json!({}),
+    );
 }
